@@ -23,7 +23,7 @@ RULE = ("full-rank Gaussians (same family as C12, rank >= dim) over 1-3 real inp
 ASSUMPTIONS = ["fv/dense.py closed forms; numpy.linalg", "comparison at rtol 1e-5 on well-conditioned factors"]
 MIN_NONTRIVIAL = {"quick": 3000, "thorough": 30000}
 REQUIRED_COUNTERS = ["marginalize:ok", "marginalize-two-step:ok", "eval-then-marginalize:ok", "log_normalizer:ok", "plate-sum:ok", "mixture-reduce:ok",
-                     "integrate-variable:ok", "integrate-gaussian:ok", "moment-matching:ok", "deficient:raised-as-required", "marginalize-block-rank:compared-ok"]
+                     "integrate-variable:ok", "integrate-gaussian:ok", "moment-matching:ok", "deficient:raised-as-required", "marginalize-block-rank:compared-ok", "log_normalizer-realigned:compared-ok"]
 
 
 def plan(tier, seed):
@@ -185,6 +185,22 @@ def run_case(rng, res, riders, i):
 
     if isinstance(g, Gaussian):  # wide factors are returned as Gaussian + Tensor, which has no such attribute
         attempt("log_normalizer", lambda: g.log_normalizer, lambda env: d.log_normalizer({k: int(env[k]) for k in ints}), OrderedDict((k, inputs[k]) for k in ints))
+    # (b') the same operations on a re-aligned Gaussian, after the original has already been used (results cached on the original must
+    # not be carried over in the old order of the integer inputs)
+    if isinstance(g, Gaussian) and len(inputs) >= 2:
+        names = list(inputs)
+        perm = [names[j] for j in rng.permutation(len(names))]
+        if perm != names:
+            try:
+                h = g.align(tuple(perm))
+            except Exception as e:
+                h = None
+                res.count("realigned:declined:%s" % type(e).__name__)
+            if h is not None:
+                attempt("log_normalizer-realigned", lambda: h.log_normalizer, lambda env: d.log_normalizer({k: int(env[k]) for k in ints}),
+                        OrderedDict((k, inputs[k]) for k in ints), detail=".align(%s)" % ",".join(perm))
+                attempt("marginalize-realigned", lambda: h.reduce(ops.logaddexp, frozenset(reals)), lambda env: d.log_normalizer({k: int(env[k]) for k in ints}),
+                        OrderedDict((k, inputs[k]) for k in ints), detail=".align(%s) reduce all reals" % ",".join(perm))
     # (c) plate sum along each batch input
     for k in ints:
         size = inputs[k][0]
